@@ -413,12 +413,12 @@ func runComb(t *testing.T, c comb, withFail bool) {
 	clause := "thread"
 	rule := "initial trace state s0, n steps (n in the combinator's arity range) that each append their tag to the trace and return val*100+len(state read)" +
 		"; continuation-taking combinators get a continuation whose step depends on all values; oracle: the steps run one after the other by a plain loop; " +
-		"value, final trace and per-step execution counts compared; non-trivial iff at least two steps (incl. continuation) are involved; distinct by (s0, steps)"
+		"value, final trace and per-step execution counts compared; non-trivial iff at least one step is involved (Sequence/Traverse/FoldM of nothing is trivial); distinct by (s0, steps)"
 	if withFail {
 		clause = "fail"
 		rule = "as the thread sub-check, but the step at a drawn position p fails with a sentinel after writing its tag and '!' to the trace, and later steps randomly fail with other sentinels; " +
 			"demanded: failure with exactly the injected error, steps after p never execute, steps up to p execute once, reported state = trace at the point of failure; " +
-			"non-trivial iff at least two steps are involved; distinct by (s0, steps, p)"
+			"non-trivial iff at least one step is involved (so a failure position exists); distinct by (s0, steps, p)"
 	}
 	kit.Check(t, c.name+"/"+clause, rule, kit.Opt{}, func(rt *rapid.T, rec *kit.Rec) {
 		sc := genScenario(rt, c, withFail)
@@ -427,7 +427,7 @@ func runComb(t *testing.T, c comb, withFail bool) {
 		if c.cont {
 			total++
 		}
-		rec.Case(total >= 2, sc.String())
+		rec.Case(total >= 1, sc.String())
 		rec.Label(fmt.Sprintf("p=%d/%d", sc.p, total))
 		want, wantHits := sc.ref(c)
 
